@@ -2,7 +2,7 @@ SPEC = {
     'id': 'C20',
     'properties_file': 'theories/Properties/C20.v',
     'properties_module': 'Properties.C20',
-    'gen_files': [],
+    'gen_files': ['theories/GenFacts/RegistryFacts.v'],
     'allowed_axioms': [],
     'streams': [{
         'name': 'export', 'pkg': '.', 'test': 'TestVerifC20',
@@ -11,12 +11,12 @@ SPEC = {
         'model_module': 'Model.C20_Export', 'imports': [],
         'shard': 40, 'timeout': 1500,
     }],
-    'rule': 'random account histories on a real node (6 quick, 60 thorough): contact requests, seed reset, blocks, up to two joined '
+    'rule': 'random account histories on a real node (6 quick, 60 thorough): contact requests, seed reset, blocks, opened one-to-one groups of contacts that are then blocked / unblocked, up to two joined '
             'multi-member groups with metadata and messages and a second account writing concurrently and merged (several heads); '
             'exported by the real ServiceExportData handler (stub stream) around service.export; the archive is checked file by file (both private keys, every entry of every log '
             'byte-for-byte equal to the DAG node and hashing to its name, heads equal to the current heads); restored by the real '
             'RestoreAccountExport into fresh in-memory nodes without network: as exported (must give the same keys, entry sets, '
-            'heads and MetadataStore getters for every group), onto a store with an account, with entry bytes flipped / swapped '
+            'heads and MetadataStore getters for every group; the restored node then rebuilds its group registry the way a starting service does and must find every exported contact and multi-member group by its key), onto a store with an account, with entry bytes flipped / swapped '
             'between two entries / truncated, each key file missing / duplicated (adjacent, at the end) / empty / garbage, both key '
             'files holding the same key (all must be rejected), entries shuffled with heads after them and keys last, unknown extra '
             'files (must restore identically), an entry file duplicated; outcomes not fixed by the property (an entry file dropped, '
@@ -25,6 +25,7 @@ SPEC = {
     'trusted_base': [
         'Coq 8.16.1 kernel; vm_compute for evaluating the model on cases',
         'no axioms',
+        'translator gen/registry.go (reindexGroupDatastore: the listings that feed the group registry, the contact states listed)',
         'harness/root/zz_verif_c20_test.go (symbolic form of an archive: identifiers by first appearance, ancestors of an entry '
         'computed by walking the real parent links), harness/root/zz_verif_meta_common_test.go',
         'modelled, not verified: SHA-256/CID computation (content determines identifier and ancestors), tar framing, go-ipfs-log / '
